@@ -220,7 +220,9 @@ def conv_prim_tables(out):
     srows = re.findall(r'^int_to_fixed! \{ \(u(\d+), i(\d+)\) -> \(FixedU(\d+), FixedI(\d+)\) \}', c, re.M)
     need(len(grows) == 10 and len(srows) == 5 and len(re.findall(r'^int_to_fixed! \{', c, re.M)) == 15, 'ten generic and five same-width int_to_fixed! rows')
     for (su, si, sb, du, di, db, dm1) in grows:
-        need(su == si == sb and du == di == db and int(dm1) + 1 == int(db), 'consistent int_to_fixed! row')
+        # the `$DstBitsM1` constant is NOT required to be `$DstBits - 1` here: a loosened row must reach the table so that `from_int_table_sound` fails
+        # and tools/from_probe.py can instantiate it
+        need(su == si == sb and du == di == db, 'consistent int_to_fixed! row')
         for tr, ss, ds, bd in gen_impls:
             ents.append((tr, ('i' if ss else 'u') + sb, ss, int(sb), ds, int(db), True, int(db) if bd == 'DstBits' else int(dm1)))
     for (su, si, du, di) in srows:
